@@ -45,6 +45,10 @@ def _run_shard(prop, tier, shard, nshards, out):
                 rr = probe.reach_report()
                 if rr:
                     ctx.notes.setdefault("reach", rr)
+            from .workloads import histories
+
+            for k, n in histories.RAISED_IN_OWN_LINE.items():
+                ctx.count("history step raised in the interpreter's own line: %s" % k, n)
         except Exception:
             pass
     with open(out, "w") as f:
